@@ -86,6 +86,11 @@ CHECKS = {
             "Generated-input search over histories: 1..59-operation sequences over all 17 ByteReader operations x byte streams <= 2000 bytes x 6 source-chunking classes (1-byte, <16, random, around 255/256/257, around 511/512, one big chunk); ReadAdapter is compared step by step with SliceReader (Cursor must agree too): identical values, the same error variant at the same step, check_eor one-sided (adapter Err implies model Err), has_more_bytes, final drain (each byte consumed exactly once); plus requests near usize::MAX.",
             "Zero-length source reads before EOF are not generated (Ok(0) means EOF by std::io::Read). The source never fails. Out-of-bounds reads that do not crash are not observable (no sanitizer tier).",
             "DESIGN.md 3/C13"),
+    "C14": ("exploration", "vf-conc",
+            "differential property-based testing (proptest): the same generated workload executed by a build without and a build with the `concurrent` feature, over many rayon pool sizes and repetitions",
+            "Generated-input search with sampled schedules: workload items on both sides of every concurrency threshold (FFT variants, power series, batch inversion, add_in_place, mul_acc, transpose_slice, Merkle trees, segmented RowMatrix LDE + row commitments for 1..255 columns, FRI apply_drp + hash_values, whole GenAir proofs with constraint-evaluation domains on both sides of 8192 rows) are computed by the serial build and by the concurrent build inside rayon pools of 1,2,3,4,5,7,8,12,16,24,32,48,64 threads, 2-3 repetitions each; digests of all deterministic outputs (for proofs: context, trace/constraint/FRI commitments, OOD frame; both proofs must verify) must be bit-identical; nonce and query data are exempt.",
+            "Rayon's scheduler cannot be controlled: interleavings are sampled (pool sizes x repetitions), not enumerated; a divergence needing a rare interleaving can be missed. TSan is not used (crossbeam's fence-based synchronisation yields false reports).",
+            "DESIGN.md 3/C14"),
 }
 
 NOT_YET = {
